@@ -368,6 +368,61 @@ func C12(rep *ev.Reporter, tier string) {
 				}
 			}
 		}
+		// (6) a second store after the knowledge base changed (library removal / additional resource)
+		// must describe the knowledge base as it is then, not as it was at the first store
+		{
+			id := "c12/" + k.name + "/second-store-after-change"
+			if rep.ReplayFilter == "" || rep.ReplayFilter == id {
+				var first string
+				for n := range lib.GetKnowledgeBase("KB", "1").RuleEntries {
+					if first == "" || n < first {
+						first = n
+					}
+				}
+				extra := `rule ExtraAdded salience 77 { when F.I2 == 0 then F.I2 = 1; F.S = F.S + "extra"; }`
+				variant := func(priorStore bool, change string) (string, error) {
+					l := ast.NewKnowledgeLibrary()
+					if err := builder.NewRuleBuilder(l).BuildRuleFromResource("KB", "1", pkg.NewBytesResource([]byte(k.text))); err != nil {
+						return "", err
+					}
+					if priorStore {
+						var sink bytes.Buffer
+						if err := l.StoreKnowledgeBaseToWriter(&sink, "KB", "1"); err != nil {
+							return "", err
+						}
+					}
+					switch change {
+					case "remove":
+						l.RemoveRuleEntry(first, "KB", "1")
+					case "add":
+						if err := builder.NewRuleBuilder(l).BuildRuleFromResource("KB", "1", pkg.NewBytesResource([]byte(extra))); err != nil {
+							return "", err
+						}
+					}
+					var buf bytes.Buffer
+					if err := l.StoreKnowledgeBaseToWriter(&buf, "KB", "1"); err != nil {
+						return "", err
+					}
+					l2 := ast.NewKnowledgeLibrary()
+					kb, err := l2.LoadKnowledgeBaseFromReader(bytes.NewReader(buf.Bytes()), true)
+					if err != nil {
+						return "", err
+					}
+					bh, err := c12Behaviour(l2, nil, "KB", "1", orders)
+					return c12Meta(kb) + "\n" + bh, err
+				}
+				for _, change := range []string{"remove", "add"} {
+					a, errA := variant(true, change)
+					b, errB := variant(false, change)
+					atomic.AddInt64(&loads, 2)
+					if errA != nil || errB != nil {
+						report("C12:second-store-fails:"+change, fmt.Sprintf("%s: %v / %v", k.name, errA, errB), id, nil)
+					} else if a != b {
+						report("C12:second-store-describes-an-earlier-state:"+change, fmt.Sprintf("%s: store, %s, store again, load: the loaded knowledge base is not the one that was stored the second time\nwith an earlier store:\n%s\nwithout:\n%s", k.name, change, a, b), id, nil)
+					}
+				}
+			}
+		}
 		if ki < 3 {
 			rep.Sample(map[string]interface{}{"knowledge_base": k.name, "grl": k.text, "stream_bytes": len(stream), "write_calls": nCalls, "prefix_offsets_tried": len(offsets)})
 		}
@@ -383,6 +438,6 @@ func C12(rep *ev.Reporter, tier string) {
 		rep.Exhaustive = false
 		rep.Coverage["caps_hit"] = "time budget"
 	}
-	rep.Coverage["rule"] = "corpus: a kitchen-sink knowledge base covering every node kind and meta field (15 operators, both negation kinds, every constant kind incl. nil, method chains, selectors, all five assignment forms, negative salience, unicode description) + 7 small knowledge bases (thorough: + programs of the C01 families, up to 60). For each: store; load through a plain, a one-byte-at-a-time and a data+EOF reader; store(load) and load again (3 generations); EVERY truncation offset of the stream (quick, kitchen-sink only: every field boundary +-1 as recorded by a tracing writer), every 16th also through the one-byte reader; a writer failing at EVERY write-call index with and without a partial write; overwrite=false onto an existing entry. Oracle: equal name/version/rule names/descriptions/saliences and equal listener traces, results and final facts of instances (2 rule orders + FetchMatchingRules); a truncated stream must give an error or an equivalent knowledge base; a failing writer must give an error. Non-trivial: every truncation/fault point and every complete load compared behaviourally."
+	rep.Coverage["rule"] = "corpus: a kitchen-sink knowledge base covering every node kind and meta field (15 operators, both negation kinds, every constant kind incl. nil, method chains, selectors, all five assignment forms, negative salience, unicode description) + 7 small knowledge bases (thorough: + programs of the C01 families, up to 60). For each: store; load through a plain, a one-byte-at-a-time and a data+EOF reader; store(load) and load again (3 generations); EVERY truncation offset of the stream (quick, kitchen-sink only: every field boundary +-1 as recorded by a tracing writer), every 16th also through the one-byte reader; a writer failing at EVERY write-call index with and without a partial write; overwrite=false onto an existing entry; store, change the knowledge base (library removal / one more resource), store again, load. Oracle: equal name/version/rule names/descriptions/saliences and equal listener traces, results and final facts of instances (2 rule orders + FetchMatchingRules); a truncated stream must give an error or an equivalent knowledge base; a failing writer must give an error. Non-trivial: every truncation/fault point and every complete load compared behaviourally."
 	_ = facts.New
 }
